@@ -10,13 +10,13 @@ use vh::*;
 fn profile(fl: Fl, mode: u32, big: bool, rng: &mut Rng) -> Profile {
     let batches: Vec<u32> = if big {
         let ib = ids_in_bucket();
-        std::vec![1, 2, 31, 32, 33, 100, ib - 1, ib, ib + 1, 2 * ib, ib / 2 + 7]
+        std::vec![1, 2, 31, 32, 33, 100, ib - 1, ib, ib + 1, 2 * ib, ib / 2 + 7, max_batch(), max_batch() - ib + 1, 9 * ib + 5]
     } else { std::vec![1, 1, 2, 2, 3, 3, 4, 5, 8] };
     let _ = rng;
     Profile {
-        mint: if fl == Fl::Cons { 160 } else { 260 }, transfer: 260, transfer_from: 110, burn: 150, burn_from: 60,
+        mint: if fl == Fl::Cons { 160 } else { 260 }, transfer: 250, transfer_from: 120, burn: 130, burn_from: 90,
         approve: 60, approve_all: 40, advance: 50, p_wrong_auth: 8, mint_mode: mode, p_long_advance: 40, batches,
-        max_ids: if big { 40_000 } else if fl == Fl::Cons { 34 } else { 14 },
+        max_ids: if big { 100_000 } else if fl == Fl::Cons { 34 } else { 14 },
     }
 }
 
@@ -59,8 +59,21 @@ fn directed(out: &mut Out, rng: &mut Rng) {
     // consecutive: batches crossing word and bucket edges (sampled observation)
     scenario(out, rng, Fl::Cons, Some(20), "bucket-edge", &[Call::BatchMint(0, ib - 10), Call::BatchMint(1, 20), tr(1, 2, ib), tr(1, 3, ib - 1), bu(0, ib - 11), tr(1, 2, ib + 1), bu(2, ib), tr(0, 3, 31), tr(0, 3, 32), bu(0, 33), Call::BatchMint(2, ib), tr(2, 0, 2 * ib - 1), tr(2, 0, 2 * ib), bu(1, ib + 9), tr(2, 1, ib + 10)]);
     scenario(out, rng, Fl::Cons, Some(20), "max-batch", &[Call::BatchMint(0, max_batch()), Call::BatchMint(1, max_batch() + 1), Call::BatchMint(1, 0), tr(0, 1, 0), tr(0, 2, max_batch() - 1), bu(0, ib * 3), tr(0, 3, ib * 3 - 1), Call::BatchMint(1, 5), tr(1, 2, max_batch()), bu(0, max_batch() - 2)]);
+    // consecutive: a maximal batch that is not bucket aligned spans 11 buckets; its first (partial) bucket is queried
+    // before anything planted a marker in between
+    scenario(out, rng, Fl::Cons, Some(20), "unaligned-max-batch", &[Call::BatchMint(0, 1), Call::BatchMint(1, max_batch()), tr(1, 2, 5), bu(1, ib + 1), Call::BatchMint(2, max_batch() - 7), tr(2, 3, max_batch() + 2), tr(1, 3, max_batch())]);
     // enumerable: swap-and-pop in every position
     scenario(out, rng, Fl::Enum, None, "swap-pop", &[Call::MintSeq(0), Call::MintSeq(0), Call::MintSeq(0), Call::MintSeq(1), Call::MintSeq(0), bu(0, 1), tr(0, 1, 0), tr(0, 0, 2), bu(1, 3), tr(1, 0, 0), bu(0, 4), bu(0, 0), bu(0, 2), Call::MintSeq(2), Call::MintId(2, EXPLICIT_BASE), bu(2, 5), tr(2, 2, EXPLICIT_BASE), bu(2, EXPLICIT_BASE)]);
+    // enumerable: the *_from paths run by an operator / approved account that is not the owner, holding 0, 1 or 2
+    // tokens itself, on first / middle / last entries of the owner's list
+    for fl in [Fl::Enum, Fl::Base] {
+        let apa = |o: usize, p: usize| Call::ApproveForAll { auths: std::vec![o], owner: o, operator: p, live_until: 500 };
+        let buf = |sp: usize, from: usize, id: u32| Call::BurnFrom { auths: std::vec![sp], spender: sp, from, id };
+        let trf = |sp: usize, from: usize, to: usize, id: u32| Call::TransferFrom { auths: std::vec![sp], spender: sp, from, to, id };
+        scenario(out, rng, fl, None, "from-paths-by-others", &[Call::MintSeq(0), Call::MintSeq(0), Call::MintSeq(0), Call::MintSeq(0), Call::MintSeq(0), Call::MintSeq(2), Call::MintSeq(1), Call::MintSeq(1),
+            apa(0, 2), apa(0, 1), apa(0, 3), buf(3, 0, 0), buf(2, 0, 2), trf(1, 0, 3, 1), buf(1, 0, 4), trf(3, 0, 3, 3),
+            apa(1, 0), buf(0, 1, 6), apa(3, 1), buf(1, 3, 1), trf(1, 3, 1, 3), buf(0, 1, 7)]);
+    }
     // base: burn and re-mint an explicit id
     scenario(out, rng, Fl::Base, None, "explicit-remint", &[Call::MintId(0, EXPLICIT_BASE + 1), Call::MintId(1, EXPLICIT_BASE), bu(0, EXPLICIT_BASE + 1), Call::MintId(2, EXPLICIT_BASE + 1), tr(2, 1, EXPLICIT_BASE + 1), tr(1, 1, EXPLICIT_BASE), Call::MintSeq(0), bu(1, EXPLICIT_BASE), bu(0, 0), Call::MintSeq(3)]);
 }
@@ -85,7 +98,8 @@ fn exhaustive_cons(out: &mut Out, rng: &mut Rng) {
 }
 
 fn main() {
-    let mut out = Out::new("From SC Require Import Lib.Prelude Lib.Int Lib.Host Model.Nft Run.NftCommon Run.C10.\nOpen Scope Z_scope.", "check_all");
+    BTRACE.store(true, std::sync::atomic::Ordering::Relaxed);
+    let mut out = Out::new("From SC Require Import Lib.Prelude Lib.Int Lib.Host Model.Nft Model.NftBits Run.NftCommon Run.C10.\nOpen Scope Z_scope.", "check_all");
     out.per_shard(110);
     let mut rng = Rng::new(out.cfg.seed);
     let thorough = out.cfg.thorough;
